@@ -6,8 +6,12 @@ handed to Crystal() with the lattice A.S in a random orientation, atoms of each 
 <= 1e-10.  The constructed crystal is read back as an integer world; spec/world/Check_C19.tla (TLC) computes the
 invariants of the crystal definitionally from w (pure translations, atoms per primitive cell, volume per atom, order
 of the space group modulo the lattice) and from the constructed world, and decides every clause.
+Crystal() spends most of its time in genBZG, so the constructions run in a (seeded, deterministic) process pool.
 """
 import json
+import multiprocessing
+import random
+import traceback
 
 import numpy as np
 
@@ -33,7 +37,8 @@ def base_worlds(ctx):
 
 
 def construct(w, S, rng):
-    """Hand the exact supercell description of w by S to Crystal().  Returns (sw, crys or None, exception name, jitter)."""
+    """Hand the exact supercell description of w by S to Crystal().
+    Returns (sw, crys or None, exception name, where, message, jitter)."""
     from onsager import crystal
     sw = worlds.supercell_world(w, S)
     A = worlds.lattice_of(w, rng, 1.0, True)
@@ -49,8 +54,32 @@ def construct(w, S, rng):
     try:
         crys = crystal.Crystal(np.dot(A, np.array(S, dtype=float)), basis, chemistry=chem)
     except Exception as ex:      # noqa: BLE001 -- the exception class is the observation
-        return sw, None, type(ex).__name__, str(ex), jitter
-    return sw, crys, "", "", jitter
+        fr = [f.name for f in traceback.extract_tb(ex.__traceback__) if "onsager" in f.filename]
+        return sw, None, type(ex).__name__, fr[-1] if fr else "?", str(ex), jitter
+    return sw, crys, "", "", "", jitter
+
+
+def do_chunk(args):
+    """Worker: a list of (index n, HNF H) for one world, with its own seed."""
+    w, items, seed = args
+    rng = random.Random(seed)
+    out = []
+    for (n, H) in items:
+        H = np.array(H, dtype=int)
+        S = superlat.redescribe(rng, H, maxentry=4)
+        sw, crys, exc, where, msg, jitter = construct(w, S, rng)
+        sw = {kk: sw[kk] for kk in ("dim", "M", "D", "basis")}
+        run_ = {"S": S.tolist(), "sw": sw, "raised": exc, "rh": False, "nG": 0, "o": 1}
+        info = {"n": n, "H": H.tolist(), "S": S.tolist(), "jitter": jitter, "msg": msg, "where": where,
+                "ow": None, "projection": ""}
+        if crys is not None:
+            try:
+                info["ow"] = worlds.observe(crys, 1.0, Dhint=w["D"])
+                run_.update({"rh": bool(np.linalg.det(crys.lattice) > 0), "nG": len(crys.G)})
+            except worlds.ProjectionError as ex:
+                info["projection"] = str(ex)
+        out.append((run_, info))
+    return out
 
 
 def idet(M):
@@ -66,29 +95,33 @@ def run(ctx):
                 "against the definitional model; non-trivial = distinct (world, sublattice) whose construction "
                 "returned a crystal")
     wl, nS = base_worlds(ctx)
-    cases, meta = [], []
-    dropped = 0
-    for w in wl:
-        d = w["dim"]
-        allS = [(n, H) for n in range(2, 7) for H in superlat.hnfs(d, n)]
+    tasks = []
+    for wi, w in enumerate(wl):
+        allS = [(n, H.tolist()) for n in range(2, 7) for H in superlat.hnfs(w["dim"], n)]
         if nS is not None and len(allS) > nS:
             allS = rng.sample(allS, nS)
+        for i in range(0, len(allS), 8):
+            tasks.append((wi, (w, allS[i:i + 8], rng.getrandbits(48))))
+    with multiprocessing.get_context("fork").Pool(8 if quick else 14) as pool:
+        chunks = pool.map(do_chunk, [t[1] for t in tasks], chunksize=1)
+    perworld = {}
+    for (wi, _), res in zip(tasks, chunks):
+        perworld.setdefault(wi, []).extend(res)
+    cases, meta = [], []
+    dropped = 0
+    for wi, w in enumerate(wl):
+        d = w["dim"]
         obs, obskeys, runs, rmeta = [], {}, [], []
-        for (n, H) in allS:
-            S = superlat.redescribe(rng, H, maxentry=4)
-            sw, crys, exc, msg, jitter = construct(w, S, rng)
-            sw = {kk: sw[kk] for kk in ("dim", "M", "D", "basis")}
-            run_ = {"S": S.tolist(), "sw": sw, "raised": exc, "rh": False, "nG": 0, "o": 1}
-            info = {"n": n, "H": H.tolist(), "S": S.tolist(), "jitter": jitter, "msg": msg}
-            if crys is not None:
-                try:
-                    ow = worlds.observe(crys, 1.0, Dhint=w["D"])
-                except worlds.ProjectionError as ex:
-                    ctx.case((w["name"], str(H.tolist())))
-                    ctx.violation("projection|%s|det=%d" % (w["name"], n),
-                                  "world %s, S=%s: constructed crystal cannot be read back exactly: %s" % (
-                                      w["name"], S.tolist(), ex), {"world": w, "S": S.tolist(), "jitter": jitter})
-                    continue
+        for run_, info in perworld.get(wi, []):
+            n, S = info["n"], info["S"]
+            if info["projection"]:
+                ctx.case((w["name"], str(info["H"])))
+                ctx.violation("projection|%s|det=%d" % (w["name"], n),
+                              "world %s, S=%s: constructed crystal cannot be read back exactly: %s" % (
+                                  w["name"], S, info["projection"]), {"world": w, "S": S, "jitter": info["jitter"]})
+                continue
+            ow = info.pop("ow")
+            if ow is not None:
                 nat = sum(len(sp) for sp in ow["basis"])
                 natw = sum(len(sp) for sp in w["basis"])
                 if max(abs(idet(ow["M"])) * natw ** 2, abs(idet(w["M"])) * ow["q"] ** d * nat ** 2) >= 2 ** 31:
@@ -98,7 +131,7 @@ def run(ctx):
                 if key not in obskeys:
                     obs.append(ow)
                     obskeys[key] = len(obs)
-                run_.update({"rh": bool(np.linalg.det(crys.lattice) > 0), "nG": len(crys.G), "o": obskeys[key]})
+                run_["o"] = obskeys[key]
             runs.append(run_)
             rmeta.append(info)
         cases.append({"w": {kk: w[kk] for kk in ("dim", "M", "D", "basis")}, "obs": obs, "runs": runs})
@@ -126,12 +159,13 @@ def run(ctx):
             names = sorted(runfails[j])
             if any(nm.startswith("harness_") for nm in names):
                 raise tlc.TLCError("harness: supercell description of %s by %s is not exact" % (w["name"], r["S"]))
-            ctx.violation("clause|%s|%s|%s|det=%d" % ("+".join(names), r["raised"] or "-", w["name"], info["n"]),
+            exc = "%s@%s" % (r["raised"], info["where"]) if r["raised"] else "-"
+            ctx.violation("clause|%s|%s|%s|det=%d" % ("+".join(names), exc, w["name"], info["n"]),
                           "world %s, supercell matrix %s (index %d, jitter %g): Crystal(A.S, basis)%s fails clause(s) %s; "
                           "constructed world: %s, %d operations, right-handed=%s" % (
                               w["name"], r["S"], info["n"], info["jitter"],
-                              " raised %s (%s)" % (r["raised"], info["msg"]) if r["raised"] else "", names,
-                              c["obs"][r["o"] - 1] if not r["raised"] else None, r["nG"], r["rh"]),
+                              " raised %s in %s (%s)" % (r["raised"], info["where"], info["msg"]) if r["raised"] else "",
+                              names, c["obs"][r["o"] - 1] if not r["raised"] else None, r["nG"], r["rh"]),
                           {"world": w, "run": r, "info": info})
     ctx.traces += stats["constructions"]
     for kk, v in stats.items():
